@@ -42,8 +42,12 @@ pub broadcast axiom fn iter_seq_array_ref<'a, T, const N: usize>(a: &'a [T; N])
 pub broadcast axiom fn ax_slice_len_bound<T>(s: &[T])
     ensures #[trigger] s@.len() <= usize::MAX;
 
+/// a byte slice occupies at most isize::MAX bytes (Rust allocation rule)
+pub broadcast axiom fn ax_u8_slice_len_bound(s: &[u8])
+    ensures #[trigger] s@.len() <= isize::MAX;
+
 pub broadcast group group_iter_seq {
-    ax_slice_len_bound, lemma_le_int_nonneg,
+    ax_slice_len_bound, ax_u8_slice_len_bound, lemma_le_int_nonneg,
     iter_seq_array, iter_seq_slice, iter_seq_vec, iter_seq_vec_ref, iter_seq_array_ref, ax_arr_of,
 }
 
@@ -122,6 +126,13 @@ pub fn v_u32_from_le_bytes(b: [u8; 4]) -> (r: u32)
 { u32::from_le_bytes(b) }
 
 pub open spec fn le32(x: u32) -> Seq<u8> { le_bytes(x as int, 4) }
+
+// ---- String (N4 literals)
+pub uninterp spec fn string_bytes(s: String) -> Seq<u8>;
+pub assume_specification[String::len](s: &String) -> (r: usize)
+    ensures r == string_bytes(*s).len();
+pub assume_specification[String::as_bytes](s: &String) -> (r: &[u8])
+    ensures r@ == string_bytes(*s);
 
 // ---- N5: every panic site is an obligation
 #[verifier::external_body]
